@@ -7,7 +7,7 @@ from . import common
 
 ID = "C05"
 LEVEL = "exploration"
-BUDGET = {"quick": 20000, "thorough": 400000}
+BUDGET = {"quick": 16000, "thorough": 320000}
 WALL_CAP = {"quick": 600, "thorough": 5400}
 RULE = ("case = generated 2D/3D plotfile x ordered variable selection (known names in any order, optionally "
         "unknown names, or 'all') x level limit x {API, CLI} x {relative, absolute} paths, strained under a drawn "
